@@ -49,6 +49,10 @@ def _pool():
     for k in range(3):
         pool.append(gen(k))
         pool.append(xml(k))
+    # operands whose source is equal to srcs[0] but another object (one source object per token)
+    twin0 = MemoryTextSource(_raw=TEXTS[0], source_uri="S0")
+    pool.append(({"kind": "code", "src": 0, "range": (5, 7), "pos_fqn": "5-7", "source_object": "equal twin of S0"}, CodeOrigin(twin0, get_code_range(5, 1, 5, 7, 1, 7))))
+    pool.append(({"kind": "xml", "src": 0, "pos_fqn": "/a/c", "source_object": "equal twin of S0"}, XMLFileOrigin(twin0, XMLPath("/a/c"))))
     m2 = [code(0, (0, 2)), xml(1)]
     m3 = [code(0, (5, 7)), code(0, (8, 9)), gen(2)]
     pool.append(({"kind": "multi", "members": m2}, MultiOrigin([o for _, o in m2])))
@@ -97,11 +101,12 @@ def _expect_merge(e, srcs, ops, got, scenario, what):
         bad("multi-origin-nested-or-contains-NoOrigin")
     ksrc = [m[0]["src"] for m in members]
     if all(k == ksrc[0] for k in ksrc):
-        if got.source is not srcs[ksrc[0]]:
+        # the common source: equal to every member's source (members may hold equal but distinct objects)
+        if type(got.source) is SourceSet or got.source != srcs[ksrc[0]]:
             bad("multi-origin-source-not-common-source")
         src_fqn = f"S{ksrc[0]}"
     else:
-        if type(got.source) is not SourceSet or len(got.source.sources) != len(ksrc) or any(s is not srcs[k] for s, k in zip(got.source.sources, ksrc)):
+        if type(got.source) is not SourceSet or len(got.source.sources) != len(ksrc) or any(s != srcs[k] for s, k in zip(got.source.sources, ksrc)):
             bad("multi-origin-source-set-wrong", expected_sources=ksrc)
         src_fqn = "SourceSet(" + "||".join(f"S{k}" for k in ksrc) + ")"
     want_fqn = src_fqn + "::" + "PositionSet(" + "||".join(m[0]["pos_fqn"] for m in members) + ")"
@@ -119,7 +124,7 @@ def _expect_add(e, srcs, a, b, got, scenario, what):
         if b0 <= a1 and a0 <= b1:
             lo, hi = min(a0, b0), max(a1, b1)
             ok = (
-                type(got) is CodeOrigin and got.source is srcs[da["src"]]
+                type(got) is CodeOrigin and got.source == srcs[da["src"]]
                 and got.position.start.index == lo and got.position.end.index == hi
                 and got.get_raw() == TEXTS[da["src"]][lo:hi]
             )
@@ -209,7 +214,7 @@ def replay_obligation(payload):
 
 def spec(tier: str, seed: int) -> Spec:
     fams = []
-    npool = 21
+    npool = 23
     for n in (1, 2):
         fams.append(Family(f"tuples-of-{n}", make_harness(n, None), variables="selectors: operand kinds / sources / ranges, function"))
     for f in range(npool):
